@@ -100,6 +100,56 @@ def real_only_case(ctx, rng):
             rep.fail('selects:%s:acted-set-differs' % name, case, {'selected_by_spec': flags, 'acted_on': ch})
 
 
+def two_step_case(ctx, rng):
+    """frame rule across steps: an earlier step acts on all resources, a later one on a selection; whatever the
+    later one does, the resources it does not select leave the flow as they left the earlier step"""
+    rep = ctx.report
+    desc, rows = S.gen_pkg(rng)
+    if len(desc['resources']) < 2:
+        desc, rows = S.gen_pkg(rng)
+    sel = S.gen_sel(rng, S.res_names(desc), allow_bad=False)
+    a = {'sel': sel}
+    firsts = {
+        'add_field': lambda: DF.add_field('zz_new', 'string', 'v', title='t'),
+        'add_computed_field': lambda: DF.add_computed_field([{'target': {'name': 'zz_new', 'type': 'string'},
+                                                               'operation': 'constant', 'with': 'v'}]),
+        'add_computed_field_str': lambda: DF.add_computed_field(target='zz_new', operation='constant', with_='v'),
+        'unpivot': lambda: DF.unpivot([{'name': 'no-such-field-(\\d+)', 'keys': {'zz_k': '\\1'}}],
+                                      [{'name': 'zz_k', 'type': 'string'}], {'name': 'zz_new', 'type': 'any'}),
+        'set_type': lambda: DF.set_type('.*', description='d'),
+        'update_schema': lambda: DF.update_schema(None, missingValues=['', 'x']),
+        'duplicate': lambda: DF.duplicate(),
+    }
+    seconds = {
+        'rename_fields': lambda: DF.rename_fields({'zz_new': 'zz_ren'}, resources=sel),
+        'set_type': lambda: DF.set_type('zz_.*', resources=sel, type='any', title='changed'),
+        'delete_fields': lambda: DF.delete_fields(['zz_new'], resources=sel),
+        'update_schema': lambda: DF.update_schema(sel, missingValues=['', 'y']),
+        'update_resource': lambda: DF.update_resource(sel, title='changed'),
+        'add_field': lambda: DF.add_field('zz_2', 'integer', 1, resources=sel),
+        'select_fields': lambda: DF.select_fields(['zz_.*'], resources=sel),
+    }
+    f1 = rng.choice(sorted(firsts))
+    f2 = rng.choice(sorted(seconds))
+    case = {'first': f1, 'second': f2, 'args': S.jsonable_args(a), 'desc': desc, 'rows': canon._plain(rows)}
+    before = S.run_real([firsts[f1]()], desc, rows)
+    after = S.run_real([firsts[f1](), seconds[f2]()], desc, rows)
+    ok = 'ok' in before and 'ok' in after
+    rep.case('two-step:%s' % f2, case, nontrivial=ok)
+    rep.hist('two_step', '%s>%s:%s' % (f1, f2, 'ok' if ok else 'rejected'))
+    if not ok:
+        return
+    names_before = [r['name'] for r in before['ok']]
+    flags = [S.py_selects(sel, names_before, i, n) for i, n in enumerate(names_before)]
+    b = {r['name']: r for r in canon.norm_pkg(before['ok'])}
+    aft = {r['name']: r for r in canon.norm_pkg(after['ok'])}
+    for n, f in zip(names_before, flags):
+        if not f and aft.get(n) != b[n]:
+            rep.fail('frame:two-step:%s-after-%s:non-selected-resource-changed' % (f2, f1), case,
+                     {'resource': n, 'after_first': b[n], 'after_both': aft.get(n)})
+            return
+
+
 def probe(finding):
     """re-run the canonical input of a listed finding; True = still fails"""
     sig = finding['signature']
@@ -121,6 +171,9 @@ def run(ctx):
     with quiet():
         for _ in range(ctx.n(500, 6000)):
             real_only_case(ctx, rng)
+        rng3 = ctx.rng('two-step')
+        for _ in range(ctx.n(300, 4000)):
+            two_step_case(ctx, rng3)
     return ctx.finish(probe=probe, search=P.search_from_disagreements(ctx, oracle, LAYER_A))
 
 
